@@ -301,7 +301,14 @@ pub fn read_msg(e: &SExp) -> Option<Msg> {
 }
 
 /// Build the real object from message data (fresh hash maps, attributes inserted in the given order).
+thread_local! {
+    /// the message most recently handed to `build` (kept so that a panic of the library while the harness is preparing
+    /// its inputs can be reported with the message that caused it)
+    pub static LAST_BUILT: std::cell::RefCell<Option<Msg>> = const { std::cell::RefCell::new(None) };
+}
+
 pub fn build(m: &Msg) -> Option<IppRequestResponse> {
+    LAST_BUILT.with(|c| *c.borrow_mut() = Some(m.clone()));
     let mut r = IppRequestResponse::new_response(IppVersion(m.version), StatusCode::SuccessfulOk, m.id);
     r.header_mut().operation_or_status = m.op;
     let groups = r.attributes_mut().groups_mut();
